@@ -10,3 +10,51 @@ CreateRecModelMgr(RecCommon &cc, Env &e, pre::BasicValuePresolver *&pPre) {
   return CreateModelMgrWithFlatConverter<RecModelAPI, MIPFlatConverter>(cc, e, pPre);
 }
 }  // namespace mp
+
+
+// ---- C19 extension: dump the link entries *as they exist when values/names are presolved*
+// (env RECSOLVER_LINKS=<file>), in execution order, same JSON shape as the cvt:writegraph link records.
+// The exported graph can be stale: CopyLink/Many2Many entries are extended in place after export.
+// ValuePresolverImpl::brl_ is private; it is read through the explicit-instantiation idiom (no change to mp).
+namespace {
+template <class Tag> struct Stolen { static typename Tag::type ptr; };
+template <class Tag> typename Tag::type Stolen<Tag>::ptr;
+template <class Tag, typename Tag::type p> struct Rob { Rob() { Stolen<Tag>::ptr = p; } static Rob inst; };
+template <class Tag, typename Tag::type p> Rob<Tag, p> Rob<Tag, p>::inst;
+struct BrlTag { typedef mp::pre::LinkRangeList mp::pre::ValuePresolverImpl::*type; };
+template struct Rob<BrlTag, &mp::pre::ValuePresolverImpl::brl_>;
+
+std::string NodesJSON(const std::vector<mp::pre::NodeRange> &v) {
+  std::string r = "[";
+  for (size_t i = 0; i < v.size(); ++i) {
+    if (i) r += ",";
+    auto ir = v[i].GetIndexRange();
+    r += "{" + rec::str(v[i].GetValueNode()->GetName()) + ":[" + std::to_string(ir.beg_) + "," + std::to_string(ir.end_ - 1) + "]}";
+  }
+  return r + "]";
+}
+}  // namespace
+
+namespace mp {
+void RecDumpLinks(pre::BasicValuePresolver &bp) {
+  const char *fn = std::getenv("RECSOLVER_LINKS");
+  if (!fn) return;
+  auto *impl = dynamic_cast<mp::pre::ValuePresolverImpl *>(&bp);
+  FILE *f = std::fopen(fn, "w");
+  if (!f) return;
+  if (impl) {
+    const mp::pre::LinkRangeList &brl = impl->*Stolen<BrlTag>::ptr;
+    mp::pre::BasicLink::EntryItems ei;
+    int k = 0;
+    for (const auto &lr : brl) {
+      for (int i = lr.ir_.beg_; i != lr.ir_.end_; ++i) {
+        lr.b_.ExportEntryItems(ei, i);
+        std::fprintf(f, "{\"link_index\":[%d,%d],\"link_type\":%s,\"src_nodes\":%s,\"dest_nodes\":%s}\n", k, i,
+                     rec::str(lr.b_.GetTypeName()).c_str(), NodesJSON(ei.src_items_).c_str(), NodesJSON(ei.dest_items_).c_str());
+      }
+      ++k;
+    }
+  }
+  std::fclose(f);
+}
+}  // namespace mp
